@@ -28,16 +28,16 @@ type Plan struct {
 }
 
 type Built struct {
-	Plan      *Plan
-	ReadErr   string // ReadFile error ("" if accepted)
-	GenErr    string // Generate error
-	Panic     string // panic in ReadFile/Generate
-	Accepted  bool
-	Compiles  bool
-	Diag      string   // compiler diagnostics if !Compiles
-	GoTypes   []string // record type names found in the generated file
-	GoFile    string
-	Warnings  []string
+	Plan     *Plan
+	ReadErr  string // ReadFile error ("" if accepted)
+	GenErr   string // Generate error
+	Panic    string // panic in ReadFile/Generate
+	Accepted bool
+	Compiles bool
+	Diag     string   // compiler diagnostics if !Compiles
+	GoTypes  []string // record type names found in the generated file
+	GoFile   string
+	Warnings []string
 }
 
 func Settings(pkg string, opts []string) bebop.GenerateSettings {
@@ -94,9 +94,9 @@ func GenerateOne(p *Plan) (b *Built, src []byte) {
 }
 
 type Workspace struct {
-	Dir     string
-	Builts  map[string]*Built
-	Worker  string // path of the worker binary
+	Dir    string
+	Builts map[string]*Built
+	Worker string // path of the worker binary
 }
 
 var goMod = `module verifwork
@@ -119,7 +119,6 @@ func harnessDir() string {
 	}
 	return "/verif/harness"
 }
-
 
 func goEnv() []string {
 	env := os.Environ()
@@ -258,4 +257,50 @@ func Build(dir string, plans []*Plan, needWorker bool) (*Workspace, error) {
 		return nil, fmt.Errorf("building worker failed: %v\n%s", err, out)
 	}
 	return ws, nil
+}
+
+// BuildSources compiles stand-alone generated files (one package each) and
+// returns the compiler's diagnostics per key ("" = compiles).
+func BuildSources(dir string, srcs map[string][]byte) (map[string]string, error) {
+	if err := os.MkdirAll(filepath.Join(dir, "gen"), 0o755); err != nil {
+		return nil, err
+	}
+	if err := os.WriteFile(filepath.Join(dir, "go.mod"), []byte(goMod), 0o644); err != nil {
+		return nil, err
+	}
+	diag := map[string]string{}
+	for k, src := range srcs {
+		pd := filepath.Join(dir, "gen", k)
+		if err := os.MkdirAll(pd, 0o755); err != nil {
+			return nil, err
+		}
+		if err := os.WriteFile(filepath.Join(pd, "s.go"), src, 0o644); err != nil {
+			return nil, err
+		}
+		diag[k] = ""
+	}
+	if len(srcs) == 0 {
+		return diag, nil
+	}
+	cmd := exec.Command("go", "build", "./gen/...")
+	cmd.Dir = dir
+	cmd.Env = goEnv()
+	out, err := cmd.CombinedOutput()
+	if err != nil {
+		cur, found := "", false
+		for _, line := range strings.Split(string(out), "\n") {
+			if strings.HasPrefix(line, "# verifwork/gen/") {
+				cur = strings.Fields(strings.TrimPrefix(line, "# verifwork/gen/"))[0]
+				continue
+			}
+			if _, ok := diag[cur]; ok && line != "" && len(diag[cur]) < 600 {
+				diag[cur] += line + "\n"
+				found = true
+			}
+		}
+		if !found {
+			return nil, fmt.Errorf("go build of generated code failed without package attribution: %v\n%s", err, out)
+		}
+	}
+	return diag, nil
 }
